@@ -31,8 +31,8 @@ ASSUMPTIONS = [
     "table-store limit is at least the in-memory size of the largest single table (smaller limits hit an assert, reported only informationally)",
 ]
 
-KEYS = ['a', 'b', 'dir/x', 'dir/y', 'deep/er/z', 'k with space']
-MISSING = ['never', 'dir/never', 'other/missing']
+KEYS = ['a', 'b', 'dir/x', 'dir/y', 'deep/er/z', 'k with space', 'user:1', 'user_1', 'q?', 'q_']     # distinct keys stay distinct files
+MISSING = ['never', 'dir/never', 'other/missing', 'a/b', 'a/b/c', 'b/x']     # also below a key that is a plain file
 VALS = [I(0), I(7), R(2.5), S(''), S('v'), S('hello "q"'), C('z'), Y('sym'), L(), L(I(1), I(2), I(3)), L(I(1), L(I(2), S('x'))),
         D([(I(1), I(2)), (S('k'), L(I(3)))]), S('x' * 60), S('y' * 120), S('w' * 100), S('u' * 90), L(*[I(i * 1000) for i in range(14)]),
         L(*[R(i + 0.5) for i in range(12)]), ('f', 1), U]
